@@ -177,27 +177,39 @@ inline void ramp(const std::string& owner, mc::Report& rep, bool small_only)
             src.push_back(mk<8>(1000 + static_cast<long>(n)));
         for (size_t cap : { n, n + 1, n + 100 })
         {
-            std::string clause, detail, step;
+            std::string clause, detail, step, fstep;
             try
             {
                 step = "fixed_vector(capacity, range)";
                 FV v(cap, src);
                 if (!same(v, src, detail))
+                {
                     clause = "contents-differ-from-reference";
+                    fstep = step;
+                }
                 step = "copy construction";
                 FV c(v);
                 if (clause.empty() && (!same(c, src, detail) || c.capacity() != cap))
+                {
                     clause = "contents-differ-from-reference";
+                    fstep = step;
+                }
                 step = "copy assignment";
                 FV a(1);
                 a = v;
                 if (clause.empty() && !same(a, src, detail))
+                {
                     clause = "contents-differ-from-reference";
+                    fstep = step;
+                }
                 step = "push_back(first, last) into an empty vector";
                 FV r(cap);
                 r.push_back(src.begin(), src.end());
                 if (clause.empty() && !same(r, src, detail))
+                {
                     clause = "contents-differ-from-reference";
+                    fstep = step;
+                }
                 step = "push_back(first, last) behind 50 elements";
                 FV h(cap + 50);
                 std::vector<P> href;
@@ -209,7 +221,35 @@ inline void ramp(const std::string& owner, mc::Report& rep, bool small_only)
                 h.push_back(src.begin(), src.end());
                 href.insert(href.end(), src.begin(), src.end());
                 if (clause.empty() && !same(h, href, detail))
+                {
                     clause = "contents-differ-from-reference";
+                    fstep = step;
+                }
+                if (n > 0 && cap == n)
+                {
+                    // erase at the front and in the middle: every tail length 0..n-1 is the number of elements that move down
+                    for (size_t pos : { size_t(0), n / 2 })
+                    {
+                        step = "erase(begin() + " + std::to_string(pos) + ")";
+                        FV e(cap, src);
+                        std::vector<P> eref = src;
+                        e.erase(e.begin() + pos);
+                        eref.erase(eref.begin() + pos);
+                        if (clause.empty() && !same(e, eref, detail))
+                        {
+                    clause = "contents-differ-from-reference";
+                    fstep = step;
+                }
+                        step = "emplace(begin() + " + std::to_string(pos) + ", fresh) after the erase";
+                        e.emplace(e.begin() + pos, mk<8>(7));
+                        eref.insert(eref.begin() + pos, mk<8>(7));
+                        if (clause.empty() && !same(e, eref, detail))
+                        {
+                    clause = "contents-differ-from-reference";
+                    fstep = step;
+                }
+                    }
+                }
             }
             catch (std::exception& e)
             {
@@ -238,7 +278,7 @@ inline void ramp(const std::string& owner, mc::Report& rep, bool small_only)
                 if (clause == "contents-differ-from-reference" && owner == "C06")
                     clause = "element-exposed-that-the-caller-did-not-put-there";
                 rep.violation(clause, owner + ":" + clause + ":ramp", mc::J().s("ramp_length", std::to_string(n)).s("capacity", std::to_string(cap)).str(),
-                              "range of " + std::to_string(n) + " trivially copyable elements, capacity " + std::to_string(cap) + ", " + step + ": " + detail, 0);
+                              "range of " + std::to_string(n) + " trivially copyable elements, capacity " + std::to_string(cap) + ", " + (fstep.empty() ? step : fstep) + ": " + detail, 0);
             }
         }
     }
